@@ -19,9 +19,10 @@ var featureOfKey = map[string][]string{
 	keyMultiDefine:   {"parallel-define", "multi-assign-call", "map-comma-ok"},
 	keyBreakInSwitch: {"break-in-switch"},
 
-	keyContinueInSwitchInit: {"switch-init"},
-	keyConstInLoop:          {},
-	keyDebugTry:             {},
+	keyContinueInSwitchInit:    {"switch-init"},
+	keyContinueInSwitchTagless: {"continue+switch-tagless"},
+	keyConstInLoop:             {},
+	keyDebugTry:                {},
 }
 
 // sharedAvoid translates this package's finding keys into the construct keys of the
@@ -72,11 +73,23 @@ func sharedPrograms(rng *rand.Rand, n int, strict bool, avoid map[string]bool) [
 		// programs strict runs to completion)
 		skip := strict && p.Aborts != ""
 
+		has := map[string]bool{}
 		for _, f := range p.Features {
-			if banned[f] {
-				skip = true
+			has[f] = true
+		}
 
-				break
+		// a ban "a+b" applies to programs that have both features
+		for b := range banned {
+			all := true
+
+			for _, f := range strings.Split(b, "+") {
+				if !has[f] {
+					all = false
+				}
+			}
+
+			if all {
+				skip = true
 			}
 		}
 
